@@ -246,7 +246,10 @@ public:
                 rec(json{{"e", "P.FdRead"}, {"m", m}});
                 perturb();
                 if (g_cfg.fk == "read" && g_cfg.fat == m) throw Injected{"fd read " + std::to_string(m)};
-                if (m > g_cfg.n) break;
+                if (m > g_cfg.n) {
+                    if (g_cfg.fk == "end") throw Injected{"input ends too early"};
+                    break;
+                }
                 n = m;
                 parse_chunk(m);
                 if (g_cfg.fdstop && !output_queue_in_use()) break;
@@ -260,6 +263,7 @@ public:
                 if (d.empty()) continue;
                 parse_chunk(std::atoi(d.c_str() + 1));
             }
+            if (g_cfg.fk == "end") throw Injected{"input ends too early"};
             rec(json{{"e", "P.End"}});
         }
         perturb();
@@ -287,6 +291,11 @@ std::string g_tmpdir;
 // block in its own blob), skip = blocks whose type is not in the entity mask.
 int type_of_block(int m) { return m % 3; }   // 1 node, 2 way, 0 relation
 
+// history files (.osh.*): every object with r % 3 == 1 is a deleted version (visible flag false); the Reader must
+// deliver the flag whatever read_meta says (the PBF parser finds it in the metadata block)
+bool g_history = false;
+bool is_deleted(int64_t id) { return g_history && (id % 100000) % 3 == 1; }
+
 void write_model_file(const std::string& path, const std::string& fmt, int R) {
     oio::File file{path, fmt};
     oio::Header header;
@@ -302,18 +311,18 @@ void write_model_file(const std::string& path, const std::string& fmt, int R) {
                     osmium::builder::NodeBuilder nb{b};
                     nb.set_id(id).set_version(2).set_changeset(7).set_uid(9).set_timestamp(osmium::Timestamp{static_cast<uint32_t>(1500000000 + r)})
                       .set_location(osmium::Location{1.0 + r * 1e-5, 2.0});
-                    nb.set_user("user");
+                    nb.set_user("user"); nb.set_visible(!is_deleted(id));
                     nb.add_tags({{"k", "v"}, {"name", "some name to make the object bigger"}});
                 } else if (t == 2) {
                     osmium::builder::WayBuilder wb{b};
                     wb.set_id(id).set_version(2).set_changeset(7).set_uid(9).set_timestamp(osmium::Timestamp{static_cast<uint32_t>(1500000000 + r)});
-                    wb.set_user("user");
+                    wb.set_user("user"); wb.set_visible(!is_deleted(id));
                     { osmium::builder::WayNodeListBuilder nl{wb}; nl.add_node_ref(1); nl.add_node_ref(2); nl.add_node_ref(3); }
                     wb.add_tags({{"highway", "residential"}});
                 } else {
                     osmium::builder::RelationBuilder rb{b};
                     rb.set_id(id).set_version(2).set_changeset(7).set_uid(9).set_timestamp(osmium::Timestamp{static_cast<uint32_t>(1500000000 + r)});
-                    rb.set_user("user");
+                    rb.set_user("user"); rb.set_visible(!is_deleted(id));
                     { osmium::builder::RelationMemberListBuilder ml{rb}; ml.add_member(osmium::item_type::node, 1, "role"); ml.add_member(osmium::item_type::way, 2, ""); }
                     rb.add_tags({{"type", "multipolygon"}});
                 }
@@ -437,6 +446,7 @@ RunResult run_script(MakeReader&& make_reader, bool real, RealAcc* acc, bool met
                             // never go missing when it was asked for, and nothing else may change
                             if (meta_expected && !has_meta) res = "data-meta-lost";
                             if (obj.tags().empty()) res = "data-tags-lost";
+                            if (obj.visible() == is_deleted(obj.id())) res = "data-visible-flag-wrong";
                         }
                         if (b.committed() == 0) res = "empty-buffer";
                     }
@@ -614,7 +624,7 @@ void run_case_inner(const json& c) {
         g_watch_pbf = false;
         RunResult rr;
         RealAcc acc{c.value("R", 1), {}};
-        const bool real = (mode == "real" || mode == "realpbf" || mode == "realpbfq");
+        const bool real = (mode == "real" || mode == "realpbf" || mode == "realpbfq" || mode == "realxmlq");
         g_q_mode = false;
         if (mode == "mock" || mode == "mockfd") {
             const std::string path = g_tmpdir + (mode == "mock" ? "/empty.opl.gz" : "/empty.osm.pbf");
@@ -626,10 +636,13 @@ void run_case_inner(const json& c) {
         } else {
             // real parsers
             const std::string fmt = c["format"];                 // "pbf", "xml", "opl", "pbf,pbf_dense_nodes=false", ...
-            const std::string suffix = fmt.substr(0, 3) == "pbf" ? ".osm.pbf" : (fmt.substr(0, 3) == "xml" ? ".osm" : ".osm.opl");
+            g_history = c.value("history", false);
+            const std::string osx = g_history ? ".osh" : ".osm";
+            const std::string suffix = fmt.substr(0, 3) == "pbf" ? osx + ".pbf" : (fmt.substr(0, 3) == "xml" ? osx : osx + ".opl");
             const std::string path = g_tmpdir + "/model" + suffix;
             const int R = acc.R;
-            write_model_file(path, fmt, R);
+            // an explicit format string replaces the detection from the file name: say "osh..." for history files
+            write_model_file(path, g_history ? (fmt.substr(0, 3) == "xml" ? "osh" + fmt.substr(3) : "osh." + fmt) : fmt, R);
             std::string data = slurp(path);
             std::string rpath = path;
             if (mode == "realpbf") {
@@ -676,6 +689,21 @@ void run_case_inner(const json& c) {
                 rpath = g_tmpdir + "/queue.osm.pbf.gz";
                 spit(rpath, "x");
             }
+            if (mode == "realxmlq") {
+                // a real XML document through the input queue: piece m of n from the mock decompressor (gzip slot); fault
+                // "end": the document stops short of its closing tags
+                if (g_cfg.fk == "end") data.resize(data.size() - std::min<std::size_t>(data.size() / 2, c.value("cut", 9)));
+                g_q_chunks.clear();
+                const std::size_t n = static_cast<std::size_t>(g_cfg.n);
+                for (std::size_t i = 0; i < n; ++i) {
+                    const std::size_t a = data.size() * i / n;
+                    const std::size_t b = data.size() * (i + 1) / n;
+                    g_q_chunks.push_back(data.substr(a, b - a));
+                }
+                g_q_mode = true;
+                rpath = g_tmpdir + "/queue.osm.gz";
+                spit(rpath, "x");
+            }
             const auto fmt_enum = fmt.substr(0, 3) == "pbf" ? oio::file_format::pbf : (fmt.substr(0, 3) == "xml" ? oio::file_format::xml : oio::file_format::opl);
             oid::ParserFactory::instance().register_parser(fmt_enum, wrap(fmt_enum == oio::file_format::pbf ? g_real_pbf : (fmt_enum == oio::file_format::xml ? g_real_xml : g_real_opl)));
             osmium::osm_entity_bits::type mask = osmium::osm_entity_bits::nothing;
@@ -697,7 +725,7 @@ void run_case_inner(const json& c) {
             g_tracing = false;
             (void)R;
         }
-        if (!trace_path.empty() && (mode != "real")) {
+        if (!trace_path.empty() && mode != "real" && mode != "realxmlq") {
             json hdr{{"e", "Config"}, {"cfg", c["cfg"]}, {"real", real}, {"seed", g_seed.load()}};
             write_trace(c, trace_path, hdr, !first);
         }
